@@ -281,6 +281,90 @@ pub fn check_file(path: &std::path::Path, rows: &[PoolRow], eol: &str, final_new
         }
     }
     st.count(if rows.iter().any(|r| matches!(r, PoolRow::Bad(..))) { "out:file-with-errors" } else { "out:file-clean" });
+    // The parser is an Iterator: every way of consuming it must deliver the items of the plain
+    // `next()` sequence (same rows, same errors, same line numbers) - skip, step_by, nth, last,
+    // count and a mix of next/nth all funnel into methods a parser may override.
+    if items.len() >= 2 {
+        let key = |r: &Result<PrecisDerivedProperty, (Option<u64>, String)>| -> String {
+            match r {
+                Ok(v) => format!("Ok({:?})", render(v)),
+                Err((l, m)) => format!("Err(line {:?}: {})", l, m),
+            }
+        };
+        let plain: Vec<String> = items.iter().map(key).collect();
+        let open = || -> Result<CsvLineParser<std::fs::File, PrecisDerivedProperty>, String> { CsvLineParser::from_path(path).map_err(|e| e.mesg().to_string()) };
+        let conv = |r: Result<PrecisDerivedProperty, precis_tools::Error>| key(&r.map_err(|e| (e.line(), e.mesg().to_string())));
+        let n = plain.len();
+        let mut variants: Vec<(String, Vec<String>, Result<Result<Vec<String>, String>, String>)> = Vec::new();
+        for k in 0..=n + 1 {
+            variants.push((format!("skip({})", k), plain.iter().skip(k).cloned().collect(), guard(|| Ok(open()?.skip(k).map(conv).collect()))));
+            variants.push((
+                format!("nth({}) then the rest", k),
+                plain.iter().skip(k).cloned().collect(),
+                guard(|| {
+                    let mut p = open()?;
+                    let mut v: Vec<String> = p.nth(k).into_iter().map(conv).collect();
+                    v.extend(p.map(conv));
+                    Ok(v)
+                }),
+            ));
+        }
+        for step in 1..=n {
+            variants.push((format!("step_by({})", step), plain.iter().step_by(step).cloned().collect(), guard(|| Ok(open()?.step_by(step).map(conv).collect()))));
+        }
+        variants.push(("last()".into(), plain.last().cloned().into_iter().collect(), guard(|| Ok(open()?.last().into_iter().map(conv).collect()))));
+        variants.push(("count()".into(), vec![n.to_string()], guard(|| Ok(vec![open()?.count().to_string()]))));
+        variants.push((
+            "next(), nth(1), next(), nth(1), ...".into(),
+            plain.iter().enumerate().filter(|(i, _)| i % 3 != 1).map(|(_, x)| x.clone()).collect(),
+            guard(|| {
+                let mut p = open()?;
+                let mut v = Vec::new();
+                loop {
+                    match p.next() {
+                        Some(x) => v.push(conv(x)),
+                        None => break,
+                    }
+                    match p.nth(1) {
+                        Some(x) => v.push(conv(x)),
+                        None => break,
+                    }
+                }
+                Ok(v)
+            }),
+        ));
+        variants.push((
+            "by_ref().take(1), then the rest".into(),
+            plain.clone(),
+            guard(|| {
+                let mut p = open()?;
+                let mut v: Vec<String> = p.by_ref().take(1).map(conv).collect();
+                v.extend(p.map(conv));
+                Ok(v)
+            }),
+        ));
+        for (how, exp, got) in variants {
+            st.evaluations += 1;
+            st.traces += 1;
+            let mkv = || {
+                let mut c = mk();
+                if let Some(o) = c.extra.as_object_mut() {
+                    o.insert("consumed_with".into(), json!(how));
+                }
+                c
+            };
+            match got {
+                Err(p) => st.violation("panic", mkv, format!("{} delivers {:?}", how, exp), format!("PANIC({})", p)),
+                Ok(Err(e)) => st.violation("file", mkv, "an iterator".into(), format!("from_path failed: {}", e)),
+                Ok(Ok(v)) => {
+                    if v != exp {
+                        st.violation("file_iterator_adapter", mkv, format!("{} delivers {:?} (the items of the plain next() sequence)", how, exp), format!("{:?}", v));
+                    }
+                }
+            }
+        }
+        st.count("out:file-consumed-through-adapters");
+    }
 }
 
 fn pool() -> Vec<PoolRow> {
